@@ -192,6 +192,7 @@ fn run_impl(script: &str, files: &[(String, FileSpec)], yash3: bool) -> Result<R
             FileSpec::Symlink { target } => {
                 std::os::unix::fs::symlink(target, &p).map_err(|e| e.to_string())?;
             }
+            FileSpec::Fifo { .. } => return Err("named pipes are not used on the real side".into()),
         }
     }
     let case = RealCase {
